@@ -225,10 +225,10 @@ def fields(ctx: Ctx, rule="R-C13-FIELDS") -> None:
     ctx.check(dotted(C.arg(gb[0], 0, "id_")) == "self.result_id" and "_rb" in (dotted(gb[0].func) or ""), rule, j, "Job.result reads result_id from the results broker",
               "same id, results broker", f"Job.result reads {unparse(gb[0])[:80]}", node=gb[0], instance="Job.result id")
     cp = ctx.func("repid.job.Job._construct_parameters")
-    rc = [c for c in ast.walk(cp.node) if isinstance(c, ast.Call) and isinstance(c.func, ast.Attribute) and c.func.attr == "RESULT_CLASS"]
-    rc = [c for c in rc if C.utext(cp, c.func).endswith("PARAMETERS_CLASS.RESULT_CLASS")]
-    ctx.require(len(rc) == 1, f"{cp.qualname}: RESULT_CLASS(...) not found")
-    ctx.check(dotted(C.kw(rc[0], "id_")) == "self.result_id" and dotted(C.kw(rc[0], "ttl")) == "self.result_ttl", rule, cp,
+    rcons = C.constructions(ctx, cp, [cp.node], "RESULT_CLASS")
+    ctx.require(len(rcons) == 1, f"{cp.qualname}: RESULT_CLASS(...) not found")
+    rc = [rcons[0][0]]
+    ctx.check(dotted(rcons[0][1].get("id_")) == "self.result_id" and dotted(rcons[0][1].get("ttl")) == "self.result_ttl", rule, cp,
               "RESULT_CLASS(id_=self.result_id, ttl=self.result_ttl)", "the id Job.result reads, the configured ttl",
               f"Job._construct_parameters builds result settings {unparse(rc[0])[:100]}", node=rc[0], instance="job result settings")
     ji = ctx.func("repid.job.Job.__init__")
@@ -246,6 +246,15 @@ def fields(ctx: Ctx, rule="R-C13-FIELDS") -> None:
     # ... only when store_result
     par = [C.negate_aware_ifexp(n) for n in ast.walk(cp.node) if isinstance(n, ast.IfExp) and any(x is rc[0] for x in ast.walk(n))]
     ok = len(par) == 1 and dotted(par[0][0]) == "self.store_result" and C.is_const(par[0][2], None) and any(x is rc[0] for x in ast.walk(par[0][1]))
+    if not par:
+        # the construction lives in a helper method: it must be unreachable there (or at the call) when results are disabled
+        for cal in [c_ for c_ in ctx.res.callees(cp, rc[0], record=False) if c_.cls is not None and c_.cls.qualname == cp.cls.qualname]:
+            hg = ctx.cfg(cal)
+            env_off = {"*sr": lambda t, n: False if dotted(n) == "self.store_result" else None}
+            r_off = flow.reach_under(hg, env_off, flow.NORMAL_KINDS)
+            builds = [n for n in hg.calls() if isinstance(n.ast.func, ast.Attribute) and n.ast.func.attr == "RESULT_CLASS"]
+            rets_off = [n for n in hg.nodes if n.kind == "return" and n.id in r_off]
+            ok = bool(builds) and not any(b.id in r_off for b in builds) and all(C.is_const(n.ast.value, None) for n in rets_off) and bool(rets_off)
     ctx.check(ok, rule, cp, "result settings only when store_result", "None when results are disabled",
               "Job._construct_parameters does not make the result settings conditional on store_result (None otherwise)", node=rc[0], instance="job store_result switch")
 
